@@ -1,12 +1,12 @@
 (* C19 - numeric and conversion built-ins satisfy their contracts for all numbers.
    Real-number statements through Flocq's B2R; [R_of x] is the real value of the double x.
-   Partial: integer(x) + decimal(x) = x, round_places and number(string(x)) = x are not proved
+   Partial: round_places and number(string(x)) = x are not proved
    (the last rests on strconv's shortest round-trip formatter, modelled in Num/Decimal.v and
    validated against Go by the 'fmt'/'parse'/'builtins' families); round_places' strict half-unit
    bound is false of binary64 evaluation (known finding D23). *)
 From Coq Require Import ZArith Reals List Bool.
 From Flocq Require Import Core BinarySingleNaN.
-From YS Require Import Base.Sexp Num.F64 Num.Decimal Yarn.Ast Yarn.Value Yarn.Eval Proofs.BuiltinProofs.
+From YS Require Import Base.Sexp Num.F64 Num.Decimal Yarn.Ast Yarn.Value Yarn.Eval Proofs.BuiltinProofs Proofs.DecimalPartProofs.
 Import ListNotations.
 Local Open Scope R_scope.
 
@@ -25,6 +25,19 @@ Theorem C19_results_are_integers : forall x,
   exists a b c d : Z, R_of (ffloor x) = IZR a /\ R_of (fceil x) = IZR b /\ R_of (ftrunc x) = IZR c /\ R_of (fround x) = IZR d.
 Proof. exact rounding_results_are_integers. Qed.
 Print Assumptions C19_results_are_integers.
+
+(* integer(x) + decimal(x) = x, exactly, for EVERY finite double: the fractional part x - trunc(x) is
+   itself a double (the subtraction does not round), it has the sign of x and magnitude below 1 *)
+Theorem C19_decimal_exact : forall x, is_finite x = true ->
+  is_finite (f_decimal x) = true /\ B2R (f_decimal x) = B2R x - IZR (Ztrunc (B2R x)).
+Proof. exact decimal_exact. Qed.
+Theorem C19_integer_plus_decimal : forall x, is_finite x = true ->
+  is_finite (fadd (ftrunc x) (f_decimal x)) = true /\ B2R (fadd (ftrunc x) (f_decimal x)) = B2R x.
+Proof. exact integer_plus_decimal. Qed.
+Theorem C19_decimal_range : forall x, is_finite x = true ->
+  Rabs (B2R (f_decimal x)) < 1 /\ (0 <= B2R x -> 0 <= B2R (f_decimal x)) /\ (B2R x <= 0 -> B2R (f_decimal x) <= 0).
+Proof. exact decimal_range. Qed.
+Print Assumptions C19_integer_plus_decimal.
 
 (* for finite |x| < 2^52: inc(x) is the least integer greater than x, dec(x) the greatest less *)
 Theorem C19_inc : forall x, is_finite x = true -> Rabs (R_of x) < IZR (2 ^ 52) ->
